@@ -4,6 +4,5 @@ CONSTANTS
   Mode = "any"
   MaxDepth = 0
   Pads = {0}
-INVARIANTS WellFormed Emit
-CONSTRAINT Cap
+INVARIANTS WellFormed Bounded Emit
 CHECK_DEADLOCK FALSE
